@@ -133,7 +133,7 @@ pub fn msm_message(r: &mut StdRng, t: &MsmTemplates, sats: &[u8], cells: &[(u8, 
 /// MSM inputs at the edges of the preconditions of C10 (used by C09/C12 message streams too)
 pub fn msm_specials(r: &mut StdRng) -> Vec<Message> {
     let mut out = vec![];
-    for num in [1074u16, 1077, 1085, 1097, 1127, 1131] {
+    for num in [1074u16, 1077, 1085, 1097, 1094, 1107, 1117, 1127, 1131] {
         let g = gnss_of(num).unwrap();
         let sigs = valid_sigs(g);
         let t = match msm_templates(r, num) {
@@ -158,6 +158,24 @@ pub fn msm_specials(r: &mut StdRng) -> Vec<Message> {
         // satellite rows disagreeing with cell rows
         add(vec![3, 4], vec![(3, s0.0, s0.1)], r);
         add(vec![3], vec![(3, s0.0, s0.1), (4, s0.0, s0.1)], r);
+        // one list empty, the other not; cells only for satellites that have no row
+        add(vec![], vec![(3, s0.0, s0.1)], r);
+        add(vec![], vec![(3, s0.0, s0.1), (64, s0.0, s0.1), (1, s0.0, s0.1)], r);
+        add(vec![3], vec![], r);
+        add(vec![5, 6], vec![(7, s0.0, s0.1), (8, s0.0, s0.1)], r);
+        // every recognised signal of the constellation at once (the widest signal mask), on as many satellites as fit
+        {
+            let ns = (64 / sigs.len()).max(1);
+            let sats: Vec<u8> = (1..=ns as u8).map(|i| i * 3).collect();
+            let mut cells = vec![];
+            for s in &sats {
+                for sg in &sigs {
+                    cells.push((*s, sg.0, sg.1));
+                }
+            }
+            cells.truncate(64);
+            add(sats, cells, r);
+        }
         // |S| * |G| around 64
         let nsig = sigs.len();
         for (ns, ng) in [(64usize, 1usize), (32, 2), (16, 4), (13, 5), (5, 13), (33, 2), (22, 3), (17, 4), (11, 6), (64, 2)] {
